@@ -11,7 +11,8 @@ HARNESS = dict(src="harness/attaccess.cpp",
                flags=["-O0", "-g1", "-fsanitize=address,undefined", "-fno-sanitize-recover=all",
                       "-fno-omit-frame-pointer", "-w"])
 
-MODEL_SERVERS = ["G1", "G2", "G3", "G4", "G5", "G6", "G7", "G8", "G9", "E123", "E231", "E312", "E333", "F21"]
+MODEL_SERVERS = ["G1", "G2", "G3", "G4", "G5", "G6", "G7", "G8", "G9", "E123", "E231", "E312", "E333", "F21", "A1", "A2"]
+AUTO_SERVERS = ["A1", "A2"]           # characteristics with auto-generated UUIDs (fixup_auto_uuid)
 QUEUE_SERVERS = ["Q1", "Q2"]          # write queue: real code only (framing / memory safety)
 ENC_SERVERS = ["G9", "E123", "E231", "E312", "E333", "F21"]
 STRICT = os.environ.get("ATTACCESS_STRICT") == "1"   # diagnostic: compare discovery byte for byte
@@ -64,6 +65,8 @@ class Table:
             if k == "D":
                 d["uuid_bytes"] = unhex(c[6])
                 d["wwr"], d["owwr"], d["ntf"], d["ind"] = [x == "1" for x in c[7:11]]
+                d["auto"] = int(c[11])
+                d["size"] = 3 + len(d["uuid_bytes"])
             if k == "N":
                 d["pos"] = int(c[6])
             if k == "S":
@@ -768,6 +771,68 @@ def small_scope(t):
     return out
 
 
+def read_len(a):
+    """number of bytes a read of attribute `a` at offset 0 yields into a large buffer (None: refused / user handler)"""
+    k = a["kind"]
+    if k in "SUX":
+        return len(a["val"])
+    if k == "D":
+        return a["size"]
+    if k == "B":
+        return a["size"] if a["r"] else None
+    if k == "F":
+        return a["size"] if a["r"] else None
+    if k == "C":
+        return a["size"]
+    if k == "N":
+        return 2
+    return None
+
+
+def fill_handles(items, target, maxn):
+    """a list of at most maxn handles (repeats allowed) whose values have exactly `target` bytes in total"""
+    best = {0: []}
+    for total in range(1, target + 1):
+        for h, n in items:
+            prev = best.get(total - n)
+            if prev is not None and len(prev) < maxn and (total not in best or len(prev) + 1 < len(best[total])):
+                best[total] = prev + [h]
+    return best.get(target)
+
+
+def decl_fill_sessions(t, names, thorough):
+    """every characteristic declaration is read into every remaining-buffer size 0..6 (and, with it, at every
+    alignment of the Read By Type collector) with the output in an exactly-sized heap block:
+    per negotiated MTU m in 23..min(40, server MTU): Read Multiple whose earlier handles leave exactly r = 0..6 bytes
+    in front of the declaration (and the declaration first, then fillers); Read By Type <<Characteristic>> from every
+    declaration handle; Read Blob of every declaration at offsets 0..20 (m = 23 and the largest m; all m in thorough)"""
+    out = []
+    for name in names:
+        tt = t[name]
+        decls = [a for a in tt.attrs if a["kind"] == "D"]
+        items = sorted(((a["handle"], read_len(a)) for a in tt.attrs if read_len(a) and not tt.requires(a)),
+                       key=lambda x: -x[1])
+        top = min(40, tt.mtu)
+        for m in range(23, top + 1):
+            ops = ["reset " + name]
+            if m > 23:
+                ops.append("pdu 0 23 " + hx(bytes([0x02]) + le16(m)))
+            for d in decls:
+                for r in range(0, 7):
+                    hs = fill_handles(items, m - 1 - r, (m - 1) // 2 - 1)
+                    if hs is None:
+                        continue
+                    ops.append("pdu 0 %d %s" % (m, hx(bytes([0x0E]) + b"".join(le16(h) for h in hs + [d["handle"]]))))
+                ops.append("pdu 0 %d %s" % (m, hx(bytes([0x0E]) + le16(d["handle"]) + le16(items[-1][0]) + le16(d["handle"]))))
+                ops.append("pdu 0 %d %s" % (m, hx(bytes([0x08]) + le16(d["handle"]) + le16(0xffff) + le16(0x2803))))
+                if m in (23, top) or thorough:
+                    for off in range(0, 21):
+                        ops.append("pdu 0 %d %s" % (m, hx(bytes([0x0C]) + le16(d["handle"]) + le16(off))))
+            ops.append("pdu 0 %d %s" % (m, hx(bytes([0x08]) + le16(1) + le16(0xffff) + le16(0x2803))))
+            out.append((name, ops))
+    return out
+
+
 RULE = ("sessions = reset <server type> + link security / setcell / pdu (l2cap_input with exactly-sized heap buffers) / ntf "
         "(l2cap_output) / mem / mtu ops; PDUs are structured from the server's own attribute table (dumped from the real templates) "
         "with boundary offsets/lengths, %s; each session runs on the real server type and on the Lean model "
@@ -777,12 +842,16 @@ RULE = ("sessions = reset <server type> + link security / setcell / pdu (l2cap_i
 
 def run_c01(ctx, replay_path=None):
     def extra(ctx, t):
-        e = []
+        e = decl_fill_sessions(t, MODEL_SERVERS if ctx.thorough else AUTO_SERVERS + ["G1", "G6"], ctx.thorough)
         if ctx.thorough:
             e += small_scope(t)
         return e
     res, t, init, sessions, impl, owner = run_generic(ctx, "C01", "c01", proj_c01, MODEL_SERVERS, 170, 3000, 60, extra)
-    res.rule = RULE % "25 % mutated (truncated / extended / corrupted / random) PDUs, unknown and command opcodes"
+    res.rule = RULE % ("25 % mutated (truncated / extended / corrupted / random) PDUs, unknown and command opcodes; plus, systematically, "
+                       "every characteristic declaration (incl. auto-generated UUIDs, servers A1/A2) read into every remaining-buffer size "
+                       "0..6 at every negotiated MTU 23..40 (Read Multiple fill patterns, Read By Type <<Characteristic>> from every "
+                       "declaration, Read Blob offsets 0..20), output buffer = exactly the negotiated MTU")
+    res.extra["declaration_fill"] = "declaration x remaining buffer 0..6 x MTU 23..40 enumerated on " + ", ".join(MODEL_SERVERS if ctx.thorough else AUTO_SERVERS + ["G1", "G6"])
     for ops, r, name in zip(sessions, impl, owner):
         if name:
             monitor_framing(res, "C01", t[name], ops, r["out"], r["crash"])
@@ -808,7 +877,7 @@ def run_c08(ctx, replay_path=None):
 
 
 def run_c06(ctx, replay_path=None):
-    res, t, init, sessions, impl, owner = run_generic(ctx, "C06", "c06", proj_common, ["G1", "G2", "G3", "G4", "G5", "G6", "G7", "G8"], 130, 2500, 70)
+    res, t, init, sessions, impl, owner = run_generic(ctx, "C06", "c06", proj_common, ["G1", "G2", "G3", "G4", "G5", "G6", "G7", "G8", "A1", "A2"], 130, 2500, 70)
     res.rule = RULE % "all links encrypted (security never interferes); reads/blob reads/writes at offsets 0, 1, size-1, size, size+1, MTU-1"
     for ops, r, name in zip(sessions, impl, owner):
         if name:
@@ -880,11 +949,11 @@ PROPS = {
     "C01": dict(COMMON,
                 theorems=[T + "step_len_le_mtu", T + "step_framing_partial", T + "step_silent", T + "step_no_oob_read",
                           T + "step_no_oob", T + "step_assert_iff", T + "history_no_oob", T + "notify_no_oob",
-                          T + "readAccess_ok", T + "writeAccess_ok", T + "handlersOk_std"],
+                          T + "readAccess_ok", T + "writeAccess_ok", T + "fixup_some", T + "handlersOk_std"],
                 imports=["BluetoeModel.AttAccess.Props", "BluetoeModel.AttAccess.Safety", "BluetoeModel.AttAccess.StepSafety"],
                 witnesses=[T + "step_framing_full_witness"],
                 run=run_c01, design_ref="§5 C01",
-                level_text="For every server table without gaps, every memory/connection state and every non-empty PDU the model of l2cap_input never returns more than min(out_size, negotiated MTU) bytes and answers every request with its response opcode or an Error Response naming it. Memory safety, both halves: no read outside the input PDU (step_no_oob_read, unconditional) and, for every well-formed table and state (decidable TableWF/StateWF: max MTU >= 23, a 128 bit value attribute follows its declaration, bound memory >= sizeof(T), CCCD positions inside the connection's array -- evaluated by the model driver on every table dumped from the real templates), every handler implementation obeying the documented contract (out_size <= read_size), every non-empty PDU and out_size >= 23, the result is a PDU: no write outside the output buffer, no copy outside a value in memory, no assert (step_no_oob); the precondition is exact (step_assert_iff: the asserts of l2cap_input fire iff it is violated) and invariant, so the same holds for every history (history_no_oob) and for l2cap_output (notify_no_oob). Tied to the code by differential runs on 14 real server types (+2 write-queue servers on the real code only) under ASan/UBSan with exactly-sized heap buffers.",
+                level_text="For every server table without gaps, every memory/connection state and every non-empty PDU the model of l2cap_input never returns more than min(out_size, negotiated MTU) bytes and answers every request with its response opcode or an Error Response naming it. Memory safety, both halves: no read outside the input PDU (step_no_oob_read, unconditional) and, for every well-formed table and state (decidable TableWF/StateWF: max MTU >= 23, a 128 bit value attribute follows its declaration, bound memory >= sizeof(T), CCCD positions inside the connection's array -- evaluated by the model driver on every table dumped from the real templates), every handler implementation obeying the documented contract (out_size <= read_size), every non-empty PDU and out_size >= 23, the result is a PDU: no write outside the output buffer, no copy outside a value in memory, no assert (step_no_oob); the precondition is exact (step_assert_iff: the asserts of l2cap_input fire iff it is violated) and invariant, so the same holds for every history (history_no_oob) and for l2cap_output (notify_no_oob). Tied to the code by differential runs on 16 real server types (two with auto-generated characteristic UUIDs, fixup_auto_uuid: fixup_some) (+2 write-queue servers on the real code only) under ASan/UBSan with exactly-sized heap buffers.",
                 level_note="Read By Type swallows a failing attribute access in the code and in the model (collectStep ignores the access result), so for that path the value-memory claim is carried by readAccess_ok (no access to any table attribute leaves its value) rather than by the PDU result. Full framing statement is false of the code (unknown commands / 0x1B / malformed 0x1E are answered, pinned by tests): witness theorem + partial theorem + known findings."),
     "C08": dict(COMMON,
                 theorems=[T + "mtu_after_history", T + "invalid_exchange_rejected", T + "response_le_negotiated", T + "notification_le_negotiated"],
